@@ -101,6 +101,14 @@ func c16Shapes() []*c16Case {
 	twice.HasUnion = true
 	twice.Tokens = []gram.TokDecl{{Name: "TA", Tag: "v"}, {Name: "TA", Num: 100}}
 	add("token-declared-twice", twice)
+	twice2 := gram.Parse("S", nil, "S: TA TB TC TD")
+	twice2.Union = " v int "
+	twice2.HasUnion = true
+	twice2.Tokens = []gram.TokDecl{{Name: "TA", Tag: "v"}, {Name: "TB"}, {Name: "TC"}, {Name: "TD"}, {Name: "TA", Num: 4}}
+	add("token-renumbered-into-automatic-range", twice2)
+	end := gram.Parse("S", nil, "S: TA")
+	end.Tokens = []gram.TokDecl{{Name: "TA"}, {Name: "END", Num: -1}}
+	add("token-numbered-minus-one", end)
 	for ai, act := range []string{" $$ = $1 /* a block comment */ ", "\n\t// a line comment\n\t$$ = $1\n", " $$ = $1 * 2 / 1 /* c1 */ /* c2 */ ", " s := \"*/ in a string\"; _ = s; $$ = $1 "} {
 		cs := &gram.Spec{Start: "S", HasUnion: true, Union: " v int ", Tokens: []gram.TokDecl{{Name: "TA", Tag: "v"}}, Types: []gram.TypeDecl{{Tag: "v", Names: []string{"S"}}}}
 		cs.Rules = []gram.Rule{{L: "S", R: []string{"S", "TA"}, Action: act}, {L: "S", R: []string{"TA"}, Action: " $$ = $1 "}}
